@@ -317,6 +317,12 @@ theorem crystal_window_eq_sublist {V T} (uts : List T) (flags : List Bool) (reps
 
 /-! ### build: eager, lazy, ensembles, windows -/
 
+lemma windowExit_ok (eps : List Int) (n first : Nat) (last width : Int) (h : eps ≠ []) :
+    ∃ planes, windowExit eps n first last width = .ok planes := by
+  cases eps with
+  | nil => exact absurd rfl h
+  | cons e0 rest => exact ⟨_, rfl⟩
+
 lemma writeRow_exact {V} (w : Nat) (vals : List V) (h : vals.length = w) :
     writeRow w vals = .ok (vals.map some) := by
   unfold writeRow
@@ -336,9 +342,10 @@ the window), row `c` of the built array holds exactly the values of `sl c`, in o
 window of the thickness tuple.  Holds for every number of ensemble blocks. -/
 theorem buildEager_rows {V T} (ts : List T) (eps : List Int) (blocks : List Nat)
     (slicesOf : Nat → Except String (List (Slice V T))) (sl : Nat → List (Slice V T)) (a b : Nat)
-    (hab : a ≤ b) (hb : b ≤ ts.length) (hsl : ∀ c ∈ blocks, slicesOf c = .ok (sl c) ∧ (sl c).length = b - a) :
+    (hab : a ≤ b) (hb : b ≤ ts.length) (hsl : ∀ c ∈ blocks, slicesOf c = .ok (sl c) ∧ (sl c).length = b - a)
+    (planes : List Int) (hp : windowExit eps ts.length a (b : Int) ((b : Int) - (a : Int)) = .ok planes) :
     buildEager ts eps blocks slicesOf a (some (b : Int))
-      = .ok ⟨blocks.map fun c => (sl c).map fun s => some s.val, ts.extract a b, eps⟩ := by
+      = .ok ⟨blocks.map fun c => (sl c).map fun s => some s.val, ts.extract a b, planes⟩ := by
   have hw : ((b : Int) - (a : Int)).toNat = b - a := by omega
   have hneg : ¬ ((b : Int) - (a : Int) < 0) := by omega
   have hrows : blocks.mapM (eagerRow (b - a) slicesOf)
@@ -353,18 +360,19 @@ theorem buildEager_rows {V T} (ts : List T) (eps : List Int) (blocks : List Nat)
   obtain ⟨h1, h2⟩ := pySlice_window ts a b hab hb
   unfold buildEager
   have h3 : (ts.extract a b).length = b - a := h1 ▸ h2
-  simp only [Option.getD_some, eagerWidth, hneg, if_false, hw, hrows, h1, h3, ne_eq, not_true_eq_false]
+  simp only [Option.getD_some, eagerWidth, hneg, if_false, hw, hrows, h1, h3, hp, ne_eq, not_true_eq_false]
   rfl
 
 lemma lazyBlockRow_eq {V T} (ts : List T) (eps : List Int) (slicesOf : Nat → Except String (List (Slice V T)))
-    (a b : Nat) (hab : a ≤ b) (hb : b ≤ ts.length) (c : Nat) :
+    (a b : Nat) (hab : a ≤ b) (hb : b ≤ ts.length) (c : Nat)
+    (planes : List Int) (hp : windowExit eps ts.length a (b : Int) ((b : Int) - (a : Int)) = .ok planes) :
     lazyBlockRow ts eps slicesOf a (some (b : Int)) c = eagerRow (b - a) slicesOf c := by
   obtain ⟨h1, h2⟩ := pySlice_window ts a b hab hb
   have hw : ((b : Int) - (a : Int)).toNat = b - a := by omega
   have hneg : ¬ ((b : Int) - (a : Int) < 0) := by omega
   have he : eagerRow (b - a) (fun _ => slicesOf c) 0 = eagerRow (b - a) slicesOf c := rfl
   unfold lazyBlockRow buildEager
-  simp only [Option.getD_some, eagerWidth, hneg, if_false, List.mapM_cons, List.mapM_nil, hw, h2, he, ne_eq, not_true_eq_false]
+  simp only [Option.getD_some, eagerWidth, hneg, if_false, List.mapM_cons, List.mapM_nil, hw, h2, he, hp, ne_eq, not_true_eq_false]
   cases hs : eagerRow (b - a) slicesOf c with
   | error e => rfl
   | ok row => rfl
@@ -376,53 +384,73 @@ theorem eager_lazy_width_agree (first last : Int) : eagerWidth first last = lazy
 per-block slice generator — including generators that fail — the lazy build (one task per block, assembled by block
 position) returns exactly what the eager build returns. -/
 theorem build_eager_eq_lazy {V T} (ts : List T) (eps : List Int) (blocks : List Nat)
-    (slicesOf : Nat → Except String (List (Slice V T))) (a b : Nat) (hab : a ≤ b) (hb : b ≤ ts.length) :
+    (slicesOf : Nat → Except String (List (Slice V T))) (a b : Nat) (hab : a ≤ b) (hb : b ≤ ts.length) (heps : eps ≠ []) :
     buildLazy ts eps blocks slicesOf a (some (b : Int)) = buildEager ts eps blocks slicesOf a (some (b : Int)) := by
+  obtain ⟨planes, hp⟩ := windowExit_ok eps ts.length a (b : Int) ((b : Int) - (a : Int)) heps
   obtain ⟨h1, h2⟩ := pySlice_window ts a b hab hb
   have hw : ((b : Int) - (a : Int)).toNat = b - a := by omega
   have hneg : ¬ ((b : Int) - (a : Int) < 0) := by omega
   have hlen : ((pySlice ts a (b : Int)).length : Int) = (b : Int) - (a : Int) := by rw [h2]; omega
   have hc : ((b - a : Nat) : Int) = (b : Int) - (a : Int) := by omega
   unfold buildLazy buildEager
-  simp only [Option.getD_some, eagerWidth, lazyWidth, ne_eq, not_true_eq_false, if_false, hneg, hw, h2, hc]
-  rw [mapM_congr' blocks _ _ (fun c _ => lazyBlockRow_eq ts eps slicesOf a b hab hb c)]
+  simp only [Option.getD_some, eagerWidth, lazyWidth, ne_eq, not_true_eq_false, if_false, hneg, hw, h2, hc, hp]
+  rw [mapM_congr' blocks _ _ (fun c _ => lazyBlockRow_eq ts eps slicesOf a b hab hb c planes hp)]
+  cases blocks.mapM (eagerRow (b - a) slicesOf) <;> rfl
 
 /-- **build of a window = window of the full build** for atoms-based potential ensembles: row `c` of
 `build(a, b)` is the part `[a, b)` of row `c` of the full build, and both hold the integrator results of configuration
 `c`. (`kern c i` = result for slice `i` of configuration `c`.) -/
 theorem build_window_atoms {V T} (ts : List T) (eps : List Int) (flags : List Bool) (blocks : List Nat)
-    (kern : Nat → Nat → V) (a b : Nat) (hab : a ≤ b) (hb : b ≤ ts.length) :
+    (kern : Nat → Nat → V) (a b : Nat) (hab : a ≤ b) (hb : b ≤ ts.length)
+    (planes : List Int) (hp : windowExit eps ts.length a (b : Int) ((b : Int) - (a : Int)) = .ok planes) :
     buildEager ts eps blocks (fun c => genAtoms ts flags (kern c) a (some (b : Int))) a (some (b : Int))
-      = .ok ⟨blocks.map fun c => (List.range' a (b - a)).map fun i => some (kern c i), ts.extract a b, eps⟩ := by
+      = .ok ⟨blocks.map fun c => (List.range' a (b - a)).map fun i => some (kern c i), ts.extract a b, planes⟩ := by
   rw [buildEager_rows ts eps blocks _ (fun c => (List.range' a (b - a)).map fun i => mkSlice ts flags i (kern c i)) a b hab hb
-    (fun c _ => ⟨genAtoms_window ts flags (kern c) a b hab hb, by simp⟩)]
+    (fun c _ => ⟨genAtoms_window ts flags (kern c) a b hab hb, by simp⟩) planes hp]
   simp [mkSlice, Function.comp_def]
 
 /-- the same for crystal potentials with an ensemble of seeds: row `c` holds the window of the crystal assembled with the
 RNG stream of seed `c`. -/
 theorem build_window_crystal {V T} (uts : List T) (eps : List Int) (flags : List Bool) (reps : Nat) (blocks : List Nat)
     (draw : Nat → Nat → Nat) (unit : Nat → Nat → V) (tile : V → V) (a b : Nat) (hab : a ≤ b)
-    (hb : b ≤ uts.length * reps) (ts : List T) (hts : ts.length = uts.length * reps) :
+    (hb : b ≤ uts.length * reps) (ts : List T) (hts : ts.length = uts.length * reps)
+    (planes : List Int) (hp : windowExit eps ts.length a (b : Int) ((b : Int) - (a : Int)) = .ok planes) :
     buildEager ts eps blocks (fun c => .ok (genCrystal uts flags reps (draw c) unit tile a (some (b : Int)))) a (some (b : Int))
       = .ok ⟨blocks.map fun c => (List.range' a (b - a)).map fun g => some (crystalSlice uts flags (draw c) unit tile g).val,
-            ts.extract a b, eps⟩ := by
+            ts.extract a b, planes⟩ := by
   rw [buildEager_rows ts eps blocks _ (fun c => (List.range' a (b - a)).map (crystalSlice uts flags (draw c) unit tile)) a b hab
-    (by omega) (fun c _ => ⟨by rw [genCrystal_window uts flags reps (draw c) unit tile a b hab hb], by simp⟩)]
+    (by omega) (fun c _ => ⟨by rw [genCrystal_window uts flags reps (draw c) unit tile a b hab hb], by simp⟩) planes hp]
   simp [Function.comp_def]
 
-/-- KNOWN FINDING (findings/C10.json, key `window-array-keeps-parent-exit-planes`): `build(first_slice, last_slice)` and
-`PotentialArray.__getitem__` with a slice range hand the exit planes of the FULL stack to the windowed array (`Built.exitPlanes = eps`,
-see `buildEager_rows`), so they may lie outside the window: a multislice run over `potential_array[0:3]` of a longer potential records
-nothing.  (The slices *generated* for a window do carry the right flags: `*_window_eq_sublist`.)  Witness: 4 slices, exit plane 3,
-window [0, 2). -/
-theorem window_keeps_parent_exit_planes_counterexample :
-    ¬ (∀ (eps : List Int) (a b : Nat) (r : Built (Nat × Nat) Nat),
-        buildEager [1, 1, 1, 1] eps [0] (fun c => genAtoms [1, 1, 1, 1] [false, false, false, true] (fun i => (c, i)) a (some (b : Int))) a (some (b : Int)) = .ok r →
-        ∀ p ∈ r.exitPlanes, p < ((b : Int) - (a : Int))) := by
-  intro h
-  have := h [3] 0 2 ⟨[[some (0, 0), some (0, 1)]], [1, 1], [3]⟩ (by decide) 3 (by simp)
-  revert this
-  decide
+/-- **the exit planes of a windowed build lie in the window** (fix: `_exit_planes_of_selection`): every plane of
+`build(a, b)` (and of `potential_array[a:b]`) is the entrance plane -1 or a slice index of the window. -/
+theorem window_exit_planes_in_window (eps : List Int) (n a b : Nat) (hab : a < b) (hb : b ≤ n) (planes : List Int)
+    (hp : windowExit eps n a (b : Int) ((b : Int) - (a : Int)) = .ok planes) :
+    ∀ p ∈ planes, -1 ≤ p ∧ p < (b : Int) - (a : Int) := by
+  cases eps with
+  | nil => cases hp
+  | cons e0 rest =>
+    simp only [windowExit] at hp
+    have hstop : min (if (b : Int) < 0 then ((b : Int) + (n : Int)).toNat else (b : Int).toNat) n = b := by
+      have : ¬ ((b : Int) < 0) := by omega
+      simp only [this, if_false, Int.toNat_natCast]; omega
+    rw [hstop] at hp
+    cases hp
+    have hin : ∀ q ∈ ((e0 :: rest).filter fun p => decide ((a : Int) ≤ p) && decide (p < (b : Int))).map (· - (a : Int)),
+        -1 ≤ q ∧ q < (b : Int) - (a : Int) := by
+      intro q hq
+      obtain ⟨r, hr, rfl⟩ := List.mem_map.mp hq
+      have := (List.mem_filter.mp hr).2
+      simp only [Bool.and_eq_true, decide_eq_true_eq] at this
+      omega
+    intro p hpm
+    split at hpm <;> split at hpm
+    · simp only [List.mem_singleton] at hpm; subst hpm; omega
+    · rcases List.mem_cons.mp hpm with rfl | h
+      · omega
+      · exact hin p h
+    · simp only [List.mem_singleton] at hpm; subst hpm; omega
+    · exact hin p hpm
 
 /-! ### exit-plane flags and crystal thicknesses -/
 
@@ -490,10 +518,10 @@ example : genCrystal (V := Nat × Nat) [5, 6] [false, true, false, true, false, 
     = [⟨(0, 1), [6], [0]⟩, ⟨(1, 0), [5], []⟩, ⟨(1, 1), [6], [0]⟩] := by decide
 example : buildEager (V := Nat × Nat) (T := Nat) [1, 1, 1] [2] [0, 1]
     (fun c => genAtoms [1, 1, 1] [false, false, true] (fun i => (c, i)) 1 (some 3)) 1 (some 3)
-    = .ok ⟨[[some (0, 1), some (0, 2)], [some (1, 1), some (1, 2)]], [1, 1], [2]⟩ := by decide
+    = .ok ⟨[[some (0, 1), some (0, 2)], [some (1, 1), some (1, 2)]], [1, 1], [1]⟩ := by decide
 example : buildLazy (V := Nat × Nat) (T := Nat) [1, 1, 1] [2] [0, 1]
     (fun c => genAtoms [1, 1, 1] [false, false, true] (fun i => (c, i)) 1 (some 3)) 1 (some 3)
-    = .ok ⟨[[some (0, 1), some (0, 2)], [some (1, 1), some (1, 2)]], [1, 1], [2]⟩ := by decide
+    = .ok ⟨[[some (0, 1), some (0, 2)], [some (1, 1), some (1, 2)]], [1, 1], [1]⟩ := by decide
 example : exitPlaneAfter [-1, 1, 3] 4 = .ok [false, true, false, true] := by decide
 
 end AbtemVerif.Props.C10
